@@ -109,6 +109,7 @@ def ihex(data):
 class Impl:
     nested = None
     failed_saves = 0
+    held_at_stop = None
     pubs = 0
     restarts = 0
     during_stop = None
@@ -305,6 +306,8 @@ class Impl:
                 asyncio.run(stop())
             else:
                 old.stop()
+        # what the stopped gateway held when stop() returned (stop() may itself have handled something)
+        self.held_at_stop = old.sensors
         cfg = self.cfg
         clock, fwn = self.clock, self._fwn
         self.__init__(cfg, self.scratch, log=self.log)
